@@ -173,5 +173,5 @@ def check(ctx: Ctx) -> str:
     # arguments): concurrent renders would observe each other's settings (rule owned by C29)
     from . import c29
 
-    ctx.run_imported("C29", {"R1"}, c29.check)
+    ctx.run_imported("C29", {"R1", "R4"}, c29.check)
     return __doc__ or ""
